@@ -43,3 +43,19 @@ def run_fuzz(*a, **k):
 
 def replay_external(r, path):
     return "error", "no external engine"
+
+plan("C20", "exploration",
+     "Systematic sweep of len 0..600 (thorough 0..1100) x {5 kernels, dispatcher under a rotating simulated CPU level} x {end-flush, start-flush, "
+     "aligned-with-offset} and generated cases (len up to 1 MiB, alignment 0..63, all 12 CPU levels); each case checks the all-zero answer and a single "
+     "non-zero byte at every position x 3 values, with non-zero bytes or an inaccessible page directly outside the region. Non-trivial: len >= 1.",
+     lambda tier: [S("C20", 60000 if tier == "quick" else 1200000)],
+     assumptions=["definition oracle: result == 0 iff all bytes zero", "guard pages convert out-of-region reads into failures"])
+
+plan("C04", "exploration",
+     "Systematic: every len 0..420 (thorough 0..1100) x every one of 48 direct kernels and 14 dispatchers (cpu level rotating with len) x 3 seeds end-flush + start-flush "
+     "+ 7 misalignments + every split point for len<=300. Generated: symbol/dispatcher@12 cpu levels, full-width seeds, len up to 1 MiB, alignment 0..63, "
+     "data kinds incl. all-0xFF, 0..4 random cuts; Adler around multiples of 5552 with maximal seed; thorough adds > 2^28-byte Adler buffers. Non-trivial: len >= 16.",
+     lambda tier: [S("C04", 60000 if tier == "quick" else 1500000)],
+     assumptions=["reference CRC: Rocksoft model, bit-serial, self-tested against published check values at start-up",
+                  "seed/xor conventions: crc16_t10dif and crc32_iscsi raw; all others invert seed and result (crc64_base.c documents it)",
+                  "Adler seeds are canonical (both halves < 65521) as RFC 1950 defines; non-canonical seeds are run but not judged"])
